@@ -217,8 +217,18 @@ func (d *Document) GetPageSettings() *PageSettings {
 		width := twipsToMM(parseFloat(sectPr.PageSize.W))
 		height := twipsToMM(parseFloat(sectPr.PageSize.H))
 
-		// 判断是否为预定义尺寸
+		// w:pgSz 保存的是物理尺寸：横向时写入前交换过宽高（见 getPageDimensions），
+		// 读取时要换回来，否则之后每次写回都会再交换一次
+		if sectPr.PageSize.Orient == string(OrientationLandscape) {
+			width, height = height, width
+		}
+
+		// 判断是否为预定义尺寸（宽高顺序也必须一致，否则写回时页面会被旋转）
 		settings.Size = identifyPageSize(width, height)
+		if dims, ok := predefinedSizes[settings.Size]; ok &&
+			(abs(width-dims.width) >= 1.0 || abs(height-dims.height) >= 1.0) {
+			settings.Size = PageSizeCustom
+		}
 		if settings.Size == PageSizeCustom {
 			settings.CustomWidth = width
 			settings.CustomHeight = height
